@@ -134,7 +134,21 @@ func stringTok(t *rapid.T, bad bool) string {
 }
 
 func urlName(t *rapid.T) string {
-	return rapid.SampledFrom([]string{"url", "URL", "Url", "uRl", "urL", "URl"}).Draw(t, "urlname")
+	// any ASCII case, each letter optionally written as a simple escape (u, r and l are not hex digits)
+	var sb strings.Builder
+	for _, c := range "url" {
+		switch rapid.IntRange(0, 5).Draw(t, "urlletter") {
+		case 0:
+			sb.WriteString(strings.ToUpper(string(c)))
+		case 1:
+			sb.WriteString(`\` + string(c))
+		case 2:
+			sb.WriteString(`\` + strings.ToUpper(string(c)))
+		default:
+			sb.WriteRune(c)
+		}
+	}
+	return sb.String()
 }
 
 func ws(t *rapid.T, min int) string {
